@@ -1,0 +1,78 @@
+//go:build verif
+
+package device
+
+import (
+	"crypto/cipher"
+)
+
+// Hooks for the C12 trace-validation harness (build tag verif only; add-only:
+// nothing here is reachable without the tag and no existing line is touched).
+//
+// They let the harness construct ONE interleaving that cannot be reached
+// through the bind/TUN boundary at a practical rate: a flusher that passed the
+// isRunning check of SendStagedPackets just before Peer.Stop() swapped the
+// flag, so that its batch lands behind the stop sentinel, while an encryption
+// worker is slow on that batch.
+
+// verifGatedAEAD calls gate before every Seal (the gate may block: a slow or
+// backlogged encryption worker).
+type verifGatedAEAD struct {
+	cipher.AEAD
+	gate func()
+}
+
+func (g *verifGatedAEAD) Seal(dst, nonce, plaintext, additionalData []byte) []byte {
+	g.gate()
+	return g.AEAD.Seal(dst, nonce, plaintext, additionalData)
+}
+
+// VerifRacingBatch is a batch in the state in which SendStagedPackets holds it
+// between its isRunning check and the two queue insertions: elements numbered
+// under the keypair that was current, container locked.
+type VerifRacingBatch struct {
+	peer *Peer
+	c    *QueueOutboundElementsContainer
+}
+
+// VerifPrepareRacingBatch builds such a batch from inner packets for the peer's
+// current keypair (nil if there is none).  Its elements seal through gate.
+func (device *Device) VerifPrepareRacingBatch(pk NoisePublicKey, packets [][]byte, gate func()) *VerifRacingBatch {
+	device.peers.RLock()
+	peer := device.peers.keyMap[pk]
+	device.peers.RUnlock()
+	if peer == nil {
+		return nil
+	}
+	kp := peer.keypairs.Current()
+	if kp == nil {
+		return nil
+	}
+	gated := &Keypair{
+		send:        &verifGatedAEAD{AEAD: kp.send, gate: gate},
+		receive:     kp.receive,
+		isInitiator: kp.isInitiator,
+		created:     kp.created,
+		localIndex:  kp.localIndex,
+		remoteIndex: kp.remoteIndex,
+	}
+	c := device.GetOutboundElementsContainer()
+	for _, p := range packets {
+		elem := device.NewOutboundElement()
+		n := copy(elem.buffer[MessageTransportHeaderSize:], p)
+		elem.packet = elem.buffer[MessageTransportHeaderSize : MessageTransportHeaderSize+n]
+		elem.peer = peer
+		elem.nonce = kp.sendNonce.Add(1) - 1
+		elem.keypair = gated
+		c.elems = append(c.elems, elem)
+	}
+	c.Lock()
+	return &VerifRacingBatch{peer: peer, c: c}
+}
+
+// Enqueue performs the two queue insertions of SendStagedPackets, as the racing
+// flusher does after Peer.Stop() has swapped isRunning and queued its sentinel.
+func (b *VerifRacingBatch) Enqueue() {
+	b.peer.queue.outbound.c <- b.c
+	b.peer.device.queue.encryption.c <- b.c
+}
